@@ -1132,9 +1132,10 @@ type hdSessionDigest struct {
 }
 
 type hdRoomDigest struct {
-	Key     string
-	Members []uint64
-	InCall  []uint64
+	Key       string
+	Members   []uint64
+	InCall    []uint64
+	Transient map[string]interface{} // the room's transient data (values as the server holds them)
 }
 
 type hdDigest struct {
@@ -1183,6 +1184,19 @@ func (s *hdSystem) sidOf(publicId string) uint64 {
 		return data.Sid
 	}
 	return 0
+}
+
+// hdRoomTransientData reads the room's transient data (unexported fields; this file is only part of the build with
+// the tag verif and enters it through -overlay).
+func hdRoomTransientData(room *Room) map[string]interface{} {
+	t := room.transientData
+	t.mu.Lock()
+	defer t.mu.Unlock()
+	out := make(map[string]interface{}, len(t.data))
+	for k, v := range t.data {
+		out[k] = v
+	}
+	return out
 }
 
 func (s *hdSystem) digest() *hdDigest {
@@ -1276,6 +1290,7 @@ func (s *hdSystem) digest() *hdDigest {
 			rd.InCall = append(rd.InCall, m.Data().Sid)
 		}
 		room.mu.RUnlock()
+		rd.Transient = hdRoomTransientData(room)
 		sort.Slice(rd.Members, func(i, j int) bool { return rd.Members[i] < rd.Members[j] })
 		sort.Slice(rd.InCall, func(i, j int) bool { return rd.InCall[i] < rd.InCall[j] })
 		d.Rooms = append(d.Rooms, rd)
